@@ -1293,6 +1293,78 @@ def canonical_models(profile):
           "activation": {"q": "quantized_sigmoid",
                          "kw": {"bits": 5, "symmetric": True,
                                 "use_real_sigmoid": True}}})], "vec", 8))
+    # every quantizer class once with non-default values for all options its
+    # get_config() carries: parallel QActivation / QDense branches
+    acts = [
+        {"q": "quantized_relu", "kw": {"bits": 5, "integer": 1, "negative_slope": 0.25,
+                                       "relu_upper_bound": 1.5,
+                                       "use_stochastic_rounding": True}},
+        {"q": "quantized_relu", "kw": {"bits": 4, "integer": 1, "use_sigmoid": 1,
+                                       "qnoise_factor": 0.5}},
+        {"q": "quantized_bits", "kw": {"bits": 5, "integer": 1, "symmetric": 1,
+                                       "keep_negative": False, "alpha": 2.0,
+                                       "use_stochastic_rounding": True}},
+        {"q": "quantized_bits", "kw": {"bits": 4, "integer": 2, "symmetric": 0,
+                                       "alpha": None, "qnoise_factor": 0.5}},
+        {"q": "quantized_po2", "kw": {"bits": 4, "max_value": 2,
+                                      "quadratic_approximation": True,
+                                      "log2_rounding": "floor",
+                                      "use_stochastic_rounding": True}},
+        {"q": "quantized_relu_po2", "kw": {"bits": 4, "max_value": 2,
+                                           "negative_slope": 0.25,
+                                           "quadratic_approximation": True,
+                                           "log2_rounding": "floor"}},
+        {"q": "ternary", "kw": {"alpha": 2.0, "threshold": 0.75,
+                                "number_of_unrolls": 3}},
+        {"q": "binary", "kw": {"use_01": True, "alpha": 0.5}},
+        {"q": "quantized_ulaw", "kw": {"bits": 5, "integer": 1, "symmetric": 1,
+                                       "u": 15.0}},
+        {"q": "quantized_tanh", "kw": {"bits": 5, "symmetric": True,
+                                       "use_real_tanh": True,
+                                       "use_stochastic_rounding": True}},
+        {"q": "quantized_sigmoid", "kw": {"bits": 5, "symmetric": True,
+                                          "use_real_sigmoid": True,
+                                          "use_stochastic_rounding": True}},
+        {"q": "stochastic_ternary", "kw": {"alpha": 2.0, "threshold": 0.25,
+                                           "temperature": 4.0,
+                                           "use_real_sigmoid": False,
+                                           "number_of_unrolls": 3}},
+        {"q": "stochastic_binary", "kw": {"alpha": 0.5, "temperature": 4.0,
+                                          "use_real_sigmoid": False}},
+    ]
+    lay = [("QActivation", {"__in__": ["in"]}, {"activation": a}) for a in acts]
+    d = _desc([4], lay, "vec", 11)
+    d["layers"].append({"name": "cat", "cls": "Concatenate",
+                        "in": [l["name"] for l in d["layers"]], "kw": {}, "q": {}})
+    d["out"] = "cat"
+    ms.append(d)
+    wqs = [
+        {"q": "quantized_bits", "kw": {"bits": 5, "integer": 1, "symmetric": 0,
+                                       "keep_negative": False, "alpha": 2.0}},
+        {"q": "quantized_bits", "kw": {"bits": 4, "integer": 1, "symmetric": 1,
+                                       "alpha": "auto", "qnoise_factor": 0.5}},
+        {"q": "quantized_po2", "kw": {"bits": 3, "max_value": 4,
+                                      "quadratic_approximation": True,
+                                      "log2_rounding": "floor"}},
+        {"q": "quantized_relu_po2", "kw": {"bits": 3, "max_value": 4,
+                                           "quadratic_approximation": True}},
+        {"q": "ternary", "kw": {"alpha": "auto", "number_of_unrolls": 3}},
+        {"q": "binary", "kw": {"use_01": True, "alpha": "auto_po2"}},
+        {"q": "stochastic_ternary", "kw": {"alpha": "auto_po2", "temperature": 4.0,
+                                           "use_real_sigmoid": False}},
+        {"q": "quantized_linear", "kw": {"bits": 4, "integer": 1, "symmetric": 0,
+                                         "alpha": "auto_po2", "keep_negative": True,
+                                         "use_stochastic_rounding": True,
+                                         "qnoise_factor": 0.5}},
+    ]
+    lay = [("QDense", {"__in__": ["in"], "units": 2, "use_bias": True},
+            {"kernel_quantizer": w, "bias_quantizer": wqs[(k + 1) % len(wqs)],
+             "activation": None}) for k, w in enumerate(wqs)]
+    d = _desc([3], lay, "vec", 12)
+    d["layers"].append({"name": "cat", "cls": "Concatenate",
+                        "in": [l["name"] for l in d["layers"]], "kw": {}, "q": {}})
+    d["out"] = "cat"
+    ms.append(d)
     ms.append(_desc([3], [
         ("QDense", {"units": 2, "use_bias": True},
          {"kernel_quantizer": {"q": "bernoulli", "kw": {"alpha": 1.0}},
@@ -1320,6 +1392,17 @@ def canonical_models(profile):
         ("QDense", {"units": 2, "use_bias": True},
          {"kernel_quantizer": _qb(4, 2, "auto_po2"), "bias_quantizer": _qb(4, 2, None),
           "activation": None})], "chain", 10))
+    lay = [("QDense", {"__in__": ["in"], "units": 3, "use_bias": True},
+            {"kernel_quantizer": w, "bias_quantizer": b, "activation": None})
+           for w, b in [(_qb(4, 0, 2.0), _qb(4, 1, 0.5)),
+                        (_qb(4, 1, "auto"), {"q": "ternary", "kw": {"alpha": "auto"}}),
+                        ({"q": "ternary", "kw": {"alpha": "auto"}}, fx),
+                        ({"q": "binary", "kw": {"alpha": "auto"}}, po2)]]
+    d = _desc([4], lay, "vec", 13)
+    d["layers"].append({"name": "cat", "cls": "Concatenate",
+                        "in": [l["name"] for l in d["layers"]], "kw": {}, "q": {}})
+    d["out"] = "cat"
+    ms.append(d)
     ms.append(_desc([4], [
         ("QDense", {"units": 3, "use_bias": True},
          {"kernel_quantizer": binr, "bias_quantizer": tern, "activation": relu}),
